@@ -75,9 +75,16 @@ def encInfo (i : Info) : String :=
 def polyHash (b : Bytes) : Nat := b.foldl (fun acc x => (acc * 257 + x + 1) % 1000000007) 0
 
 /-- the byte generator shared with the harness: `len` bytes from `seed` -/
-def genBytes : Nat → Nat → Bytes
+def genBytesAux (kind : Nat) : Nat → Nat → Bytes
   | 0, _ => []
-  | n + 1, s => let s' := (s * 1103515245 + 12345) % 2147483648; (s' / 65536 % 256) :: genBytes n s'
+  | n + 1, s =>
+    let s' := (s * 1103515245 + 12345) % 2147483648
+    (if kind == 2 then 0 else if kind == 1 then 97 + s' / 65536 % 4 else s' / 65536 % 256) :: genBytesAux kind n s'
+
+/-- the content generator shared with the harness: the seed selects the distribution (random
+    bytes below 2^20, low-entropy text from 2^20, zeros from 2^21) -/
+def genBytes (n seed : Nat) : Bytes :=
+  genBytesAux (if seed ≥ 2097152 then 2 else if seed ≥ 1048576 then 1 else 0) n seed
 
 /-- a handle of the reference filesystem: path, may write, pending buffer -/
 structure RefHandle where
